@@ -16,7 +16,8 @@ variable {V : Type}
 
 theorem fnOf_ge (T : Table) (f : Fn) (h : ¬ f < T.fns.length) : fnOf T f = noFn := by
   unfold fnOf
-  rw [List.getD_eq_getElem?_getD, List.getElem?_eq_none (by omega)]
+  have hle : T.fns.length ≤ f := Nat.le_of_not_lt h
+  rw [List.getD_eq_getElem?_getD, List.getElem?_eq_none hle]
   rfl
 
 theorem discipline_closed (T : Table) (hd : KeyDiscipline T = true) (f : Fn)
@@ -159,6 +160,7 @@ theorem lookup_good (S : Sys V) (c : Cache V) (hc : CacheOK S c) (f : Fn) (a : L
     rw [hf, ha, hk, hl] at hg
     exact hg
 
+omit [DecidableEq V] in
 /-- A value that is the cache-free value under mode `s` may be stored under `keyOf s f`. -/
 theorem good_insert (S : Sys V) (hd : KeyDiscipline S.T = true) (he : EnvOK S) (hc : Conf S)
     (s : Spelling) (f : Fn) (a : List V) (v : V) (hm : isMemo S.T f = true)
@@ -171,6 +173,7 @@ theorem good_insert (S : Sys V) (hd : KeyDiscipline S.T = true) (he : EnvOK S) (
     simp only [Bool.false_eq_true, if_false, GoodAt]
     exact fun s' => pureVal_indep S hd he hc s s' f a v hf hv
 
+omit [DecidableEq V] in
 theorem good_use (S : Sys V) (s : Spelling) (f : Fn) (a : List V) (v : V)
     (h : GoodAt S f a v (keyOf S.T s f)) : PureVal S s f a v := by
   unfold keyOf at h
@@ -180,6 +183,7 @@ theorem good_use (S : Sys V) (s : Spelling) (f : Fn) (a : List V) (v : V)
     simp only [hk, Bool.false_eq_true, if_false, GoodAt] at h
     exact h s
 
+omit [DecidableEq V] in
 /-- Running a program against a sound evaluator keeps the cache sound and yields the cache-free
     result. -/
 theorem runM_sound (S : Sys V) (s : Spelling)
@@ -248,7 +252,7 @@ theorem evalM_sound (S : Sys V) (hd : KeyDiscipline S.T = true) (he : EnvOK S) (
           rcases List.mem_cons.mp hemem with rfl | hmem
           · exact good_insert S hd he hcf s f a w hm hp
           · exact hc1 e hmem
-    · simp only [hm, if_false] at h
+    · simp only [hm] at h
       obtain ⟨hc1, m, hmv⟩ := runM_sound S s (evalM S s n) ih (S.body f a) c v c' hc h
       exact ⟨hc1, m + 1, by rw [evalP]; exact hmv⟩
 
@@ -297,8 +301,9 @@ theorem evalM_complete (S : Sys V) (hd : KeyDiscipline S.T = true) (he : EnvOK S
       | some w =>
         have := good_use S s f a w (lookup_good S c hc f a _ w hl)
         exact ⟨c, by rw [pureVal_unique S s f a w v this hpv]⟩
-      | none => exact ⟨_, by simp only [hc1]⟩
-    · simp only [hm, if_false]
+      | none =>
+        exact ⟨{ fn := f, args := a, key := keyOf S.T s f, val := v } :: c1, by simp only [hc1]⟩
+    · simp only [hm]
       exact ⟨c1, hc1⟩
 
 /-! ## Histories -/
